@@ -277,6 +277,24 @@ def run_case(ctx, case):
         ctx.count("updater_subscribed_by_hand")
     else:
         upd = ResidualGraphUpdater(d, g0, **kwargs)
+    twin_completed = None
+    if case["seed"] % 11 == 3:
+        # the user's own completion observer with the feature types of the updater's helper, created
+        # after the updater and dropped again a few dispatches later
+        from job_shop_lib.dispatching.feature_observers import IsCompletedObserver
+        try:
+            twin_completed = IsCompletedObserver(
+                d, feature_types=list(upd.is_completed_observer.features))
+            ctx.count("second_completion_observer_created_after_the_updater")
+        except Exception:
+            twin_completed = None
+    if case["seed"] % 11 == 7:
+        # a composite over all subscribed feature observers (the updater's helper among them) is
+        # created after the updater
+        from job_shop_lib.dispatching.feature_observers import CompositeFeatureObserver
+        CompositeFeatureObserver(d)
+        ctx.count("composite_created_after_the_updater")
+    fork_at = rng.randint(0, max(0, r.num_ops - 2)) if case["seed"] % 10 == 8 and twin_completed is None else None
     if case["initial_reset"]:
         d.reset(); r.reset()
     ctx.count("builder_" + case["builder"])
@@ -306,6 +324,23 @@ def run_case(ctx, case):
             if any(upd.job_shop_graph.removed_nodes):
                 ctx.violation("c17_nodes_removed_right_after_reset", dict(w0))
             continue
+        if twin_completed is not None and len(r.history) >= 2:
+            d.unsubscribe(twin_completed)
+            twin_completed = None
+            ctx.count("second_completion_observer_unsubscribed_mid_episode")
+        if fork_at is not None and len(r.history) >= fork_at and abandon is None:
+            # the history goes on on a deep copy of the dispatcher (with its updater and graph)
+            import copy
+            fork_at = None
+            d = copy.deepcopy(d)
+            run.d, run.instance = d, d.instance
+            run.ops = [op for job in d.instance.jobs for op in job]
+            upds = [x for x in d.subscribers if isinstance(x, ResidualGraphUpdater)]
+            if len(upds) != 1:
+                ctx.violation("c17_deep_copy_lost_the_updater", dict(w0, updaters=len(upds)))
+                return
+            upd = upds[0]
+            ctx.count("histories_continued_on_a_deep_copy_of_the_dispatcher")
         pol = case["policy"]
         o, m = run.choose(rng, pol if pol != "mixed" else rng.choice(gen.POLICIES))
         run.dispatch(o, m)
